@@ -8,7 +8,7 @@ x0 shift, change of variables), final statements in Props/C12.v.
 Correspondence = CERTIFICATE CHECKING (Corr/CheckC12.v): for random small dense
 problems (integer / Gaussian-integer entries, 0-3 regularisers with data,
 weights, epsI (also negative), epsRs, NRegs/epsNRs, x0 in {None, zeros, random}, engines scipy
-and pylops) the real implementation is run with tight tolerances; Coq computes
+and pylops, MIXED numpy dtypes of y / dataregs / x0 / operators) the real implementation is run with tight tolerances; Coq computes
 N and rhs of the DOCUMENTED problem exactly over Qc / Gaussian Qc and checks
 ||N x_impl - rhs||_inf <= tol*scale for every returned x, compares
 Op_normal.todense(), y_normal, RegOp.todense(), datatot with the model's
@@ -115,6 +115,105 @@ def gen_raw(r):
     return pb
 
 
+MIXES_C = ["real_y", "real_y", "real_y_d", "real_y_x0", "real_op"]
+MIXES_R = ["int_y", "int_y_d", "int_all", "int_d", "f32_d_x0", "int_y_f32_d"]
+
+
+def no_mix():
+    return {"y_real": False, "d_real": False, "x0_real": False, "real_op": False,
+            "y_int": False, "d_int": False, "x0_int": False, "d_f32": False, "x0_f32": False, "name": "none"}
+
+
+def draw_mix(r, pb):
+    """MIXED dtypes of the arrays handed to the solvers (values stay the same
+    small integers; only numpy dtypes differ).  Combinations the unchanged
+    library rejects (real operator with complex data through VStack;
+    float32 y, which limits lsqr to single precision) are not generated."""
+    mx = no_mix()
+    if r.random() >= 0.45:
+        return mx
+    k = r.choice(MIXES_C if pb["cplx"] else MIXES_R)
+    mx["name"] = k
+    if k in ("real_y", "real_y_d", "real_y_x0"):
+        mx["y_real"] = True
+        mx["d_real"] = k == "real_y_d"
+        mx["x0_real"] = k == "real_y_x0"
+    elif k == "real_op":
+        mx["real_op"] = True
+    elif k == "int_y":
+        mx["y_int"] = True
+    elif k == "int_y_d":
+        mx["y_int"] = mx["d_int"] = True
+    elif k == "int_all":
+        mx["y_int"] = mx["d_int"] = mx["x0_int"] = True
+    elif k == "int_d":
+        mx["d_int"] = True
+    elif k == "f32_d_x0":
+        mx["d_f32"] = mx["x0_f32"] = True
+    elif k == "int_y_f32_d":
+        mx["y_int"] = mx["d_f32"] = True
+    return mx
+
+
+def apply_mix_values(pb):
+    """Make the VALUES consistent with the dtype mix (drop imaginary parts
+    where an array is handed over as a real one)."""
+    mx = pb["mix"]
+    if mx["y_real"]:
+        pb["y"] = pb["y"].real + 0j
+    if mx["x0_real"]:
+        pb["x0"] = pb["x0"].real + 0j
+    if mx["real_op"]:
+        pb["A"] = pb["A"].real + 0j
+        if pb["Wr"] is not None:
+            pb["Wr"] = pb["Wr"].real + 0j
+        # Identity / derivative operators of real dtype reject complex input on the
+        # unchanged tree: use their dense matrices through MatrixMult instead
+        dense = reg_dense(pb)
+        for g, R in zip(pb["regs"], dense):
+            g["R"] = (g["R"].real if "R" in g else np.asarray(R).real) + 0j
+            g["kind"] = "mat"
+        pb["Ms"] = [M.real + 0j for M in pb["Ms"]]
+        pb["P"] = pb["P"].real + 0j
+
+
+def op_dtype(pb):
+    return "complex128" if (pb["cplx"] and not pb.get("mix", {}).get("real_op")) else "float64"
+
+
+def cast_y(pb, y):
+    mx = pb.get("mix", {})
+    if mx.get("y_real"):
+        return np.ascontiguousarray(y.real, dtype=np.float64)
+    if mx.get("y_int"):
+        return np.asarray(y).real.astype(np.int64)
+    return y
+
+
+def cast_d(pb, d):
+    mx = pb.get("mix", {})
+    if mx.get("d_real"):
+        return np.ascontiguousarray(d.real, dtype=np.float64)
+    if mx.get("d_int"):
+        return np.asarray(d).real.astype(np.int64)
+    if mx.get("d_f32"):
+        return np.asarray(d).real.astype(np.float32)
+    return d
+
+
+def cast_x0(pb, x):
+    mx = pb.get("mix", {})
+    if x is None:
+        return None
+    if mx.get("x0_real"):
+        return np.ascontiguousarray(x.real, dtype=np.float64)
+    if mx.get("x0_int"):
+        return np.asarray(x).real.astype(np.int64)
+    if mx.get("x0_f32"):
+        return np.asarray(x).real.astype(np.float32)
+    return x
+
+
 def reg_dense(pb):
     """Dense matrices of the regularisation operators, extracted from the
     implementation's own operators (L1 style)."""
@@ -123,12 +222,12 @@ def reg_dense(pb):
 
 def build_regs_ops(pb):
     import pylops
-    dt = "complex128" if pb["cplx"] else "float64"
+    dt = op_dtype(pb)
     n = pb["n"]
     ops = []
     for g in pb["regs"]:
         if g["kind"] == "mat":
-            ops.append(pylops.MatrixMult(np.array(g["R"], dtype=dt), dtype=dt))
+            ops.append(pylops.MatrixMult(np.array(np.real(g["R"]) if dt == "float64" else g["R"], dtype=dt), dtype=dt))
         elif g["kind"] == "ident":
             ops.append(pylops.Identity(n, dtype=dt))
         elif g["kind"] == "d1":
@@ -151,6 +250,8 @@ def finalize(pb):
                 d = d + 1j * r.randint(-4, 5, R.shape[0])
             if r.rand() < 0.2:
                 d = d * 0
+            if pb["mix"]["d_real"]:
+                d = d.real
             ds.append(d.astype(pb["A"].dtype))
         pb["ds"] = ds
     else:
@@ -187,7 +288,10 @@ def gen(idx):
     rejected = 0
     for att in range(200):
         r = common.rng("C12", idx, att)
-        pb = finalize(gen_raw(r))
+        pb = gen_raw(r)
+        pb["mix"] = draw_mix(common.rng("C12mix", idx, att), pb)
+        apply_mix_values(pb)
+        pb = finalize(pb)
         sy = dense_systems(pb)
         if cond(sy["NE"][0]) > COND_MAX or cond(sy["RI"][0]) > COND_MAX:
             rejected += 1
@@ -203,8 +307,9 @@ def gen(idx):
 # ------------------------------------------------------------------ running
 def mk_ops(pb):
     import pylops
-    dt = "complex128" if pb["cplx"] else "float64"
-    A = np.array(pb["A"], dtype=dt)
+    dt = op_dtype(pb)
+    rl = (lambda M: np.real(M)) if dt == "float64" else (lambda M: M)
+    A = np.array(rl(pb["A"]), dtype=dt)
     Op = pylops.MatrixMult(A, dtype=dt)
     Regs = build_regs_ops(pb)
     if pb.get("regs_none") and not Regs:
@@ -213,25 +318,26 @@ def mk_ops(pb):
     if pb["Wr"] is None:
         Wne = Wri = None
     elif pb["wkind"] == "diag":
-        wr = np.diag(pb["Wr"]).astype(dt)
+        wr = rl(np.diag(pb["Wr"])).astype(dt)
         Wne = pylops.Diagonal((wr.conj() * wr).astype(dt), dtype=dt)
         Wri = pylops.Diagonal(wr, dtype=dt)
     else:
-        Wne = pylops.MatrixMult((H(pb["Wr"]) @ pb["Wr"]).astype(dt), dtype=dt)
-        Wri = pylops.MatrixMult(np.array(pb["Wr"], dtype=dt), dtype=dt)
-    NRegs = [pylops.MatrixMult((H(M) @ M).astype(dt), dtype=dt) for M in pb["Ms"]] or None
+        Wne = pylops.MatrixMult(rl(H(pb["Wr"]) @ pb["Wr"]).astype(dt), dtype=dt)
+        Wri = pylops.MatrixMult(np.array(rl(pb["Wr"]), dtype=dt), dtype=dt)
+    NRegs = [pylops.MatrixMult(rl(H(M) @ M).astype(dt), dtype=dt) for M in pb["Ms"]] or None
     epsNRs = list(pb["epsNRs"]) or None
     if pb["pkind"] == "I":
         P = pylops.Identity(pb["n"], dtype=dt)
     elif pb["pkind"] == "diag":
-        P = pylops.Diagonal(np.diag(pb["P"]).astype(dt), dtype=dt)
+        P = pylops.Diagonal(rl(np.diag(pb["P"])).astype(dt), dtype=dt)
     else:
-        P = pylops.MatrixMult(np.array(pb["P"], dtype=dt), dtype=dt)
-    return dict(Op=Op, Regs=Regs, Wne=Wne, Wri=Wri, NRegs=NRegs, epsNRs=epsNRs, P=P, dt=dt)
+        P = pylops.MatrixMult(np.array(rl(pb["P"]), dtype=dt), dtype=dt)
+    return dict(Op=Op, Regs=Regs, Wne=Wne, Wri=Wri, NRegs=NRegs, epsNRs=epsNRs, P=P, dt=dt,
+                ydt="complex128" if pb["cplx"] else "float64")
 
 
 def dr(pb):
-    return None if pb["ds"] is None else [d.copy() for d in pb["ds"]]
+    return None if pb["ds"] is None else [cast_d(pb, d.copy()) for d in pb["ds"]]
 
 
 def er(pb):
@@ -242,8 +348,8 @@ def x0_of(pb, kind):
     if kind == "none":
         return None
     if kind == "zeros":
-        return np.zeros(pb["n"], dtype=pb["A"].dtype)
-    return np.array(pb["x0"], dtype=pb["A"].dtype)
+        return cast_x0(pb, np.zeros(pb["n"], dtype=pb["A"].dtype))
+    return cast_x0(pb, np.array(pb["x0"], dtype=pb["A"].dtype))
 
 
 def kw_for(solver, engine, n, bnorm2):
@@ -262,7 +368,7 @@ def solve_variant(pb, solver, engine, x0kind, functional=False, plain=False, wan
     from pylops.optimization import cls_leastsquares as cl
     from pylops.optimization import leastsquares as ls
     o = mk_ops(pb)
-    y = np.array(pb["y"], dtype=o["dt"])
+    y = cast_y(pb, np.array(pb["y"], dtype=o["ydt"]))
     x0 = x0_of(pb, x0kind)
     sy = dense_systems(pb)
     asm = {}
@@ -338,21 +444,27 @@ def run_problem(pb):
         except Exception as e:   # an exception on a valid problem is itself reported
             rec["errors"].append((tag, "%s: %s" % (type(e).__name__, e)))
 
+    # a real operator with complex data is accepted by the unchanged library only
+    # through NormalEquationsInversion(engine=scipy) and PreconditionedInversion
+    rop = pb["mix"]["real_op"]
     first = True
-    for solver in ("NE", "RI") + (("PI",) if pb["pi"] else ()):
+    for solver in (("NE",) if rop else ("NE", "RI")) + (("PI",) if pb["pi"] else ()):
         first = True
         for engine in ENGINES:
+            if rop and solver == "NE" and engine != "scipy":
+                continue
             for x0kind in X0KINDS:
                 go(solver, engine, x0kind, want_asm=first)
                 first = False
     # functional entry points
     go("NE", "scipy", "random", functional=True)
-    go("RI", "pylops", "random", functional=True)
+    if not rop:
+        go("RI", "pylops", "random", functional=True)
     if pb["pi"]:
         go("PI", "scipy", "random", functional=True)
     # coinciding formulations
     go("NEr", "scipy", "none", functional=True)
-    if pb["pi"]:
+    if pb["pi"] and not rop:
         go("PI", "scipy", "none", functional=True, plain=True)
         go("RI", "scipy", "none", functional=True, plain=True)
         go("NE", "scipy", "none", functional=True, plain=True)
@@ -493,7 +605,7 @@ def ser(pb):
             "regs_none": pb.get("regs_none", False),
             "ds": None if pb["ds"] is None else [v(d) for d in pb["ds"]], "epsRs": pb["epsRs"], "epsI": pb["epsI"],
             "Ms": [c(M) for M in pb["Ms"]], "epsNRs": pb["epsNRs"], "x0": v(pb["x0"]), "pkind": pb["pkind"], "P": c(pb["P"]),
-            "pi": pb.get("pi", True)}
+            "pi": pb.get("pi", True), "mix": pb.get("mix")}
 
 
 def deser(s):
@@ -505,7 +617,8 @@ def deser(s):
           "regs": [{"kind": g["kind"], **({"R": c(g["R"])} if g["R"] is not None else {})} for g in s["regs"]],
           "regs_none": s.get("regs_none", False),
           "dataregs": None, "epsRs": s["epsRs"], "epsI": s["epsI"], "Ms": [c(M) for M in s["Ms"]], "epsNRs": s["epsNRs"],
-          "x0": v(s["x0"]), "pkind": s["pkind"], "P": c(s["P"]), "pi": s.get("pi", True), "id": 0}
+          "x0": v(s["x0"]), "pkind": s["pkind"], "P": c(s["P"]), "pi": s.get("pi", True), "id": 0,
+          "mix": s.get("mix") or no_mix()}
     pb["A"] = pb["A"].reshape(s["m"], s["n"])
     pb["Rd"] = reg_dense(pb)
     pb["ds"] = None if s["ds"] is None else [v(d) for d in s["ds"]]
@@ -658,7 +771,7 @@ def main(tier):
     nsolves = 0
     nontriv = set()
     dist = {"real": 0, "complex": 0, "nregs": {}, "weight": {}, "epsI>0": 0, "epsI<0": 0, "NRegs>0": 0, "dataregs=None": 0, "epsRs=None": 0,
-            "with PI": 0, "rejected_ill_conditioned": 0, "m<n": 0}
+            "with PI": 0, "rejected_ill_conditioned": 0, "m<n": 0, "dtype_mix": {}}
     ncert = 0
     nfail_cert = 0
     for pb, rec in zip(pbs, recs):
@@ -671,6 +784,7 @@ def main(tier):
         dist["dataregs=None"] += pb["ds"] is None
         dist["epsRs=None"] += pb["epsRs"] is None
         dist["with PI"] += bool(pb["pi"])
+        dist["dtype_mix"][pb["mix"]["name"]] = dist["dtype_mix"].get(pb["mix"]["name"], 0) + 1
         dist["m<n"] += pb["m"] < pb["n"]
         dist["rejected_ill_conditioned"] += pb["rejected"]
         h = hashlib.sha256(json.dumps(ser(pb), sort_keys=True).encode()).hexdigest()[:16]
@@ -723,6 +837,6 @@ def main(tier):
     for pb, rec in list(zip(pbs, recs))[:4]:
         tag, x = rec["xs"][0]
         R.samples.append({"n": pb["n"], "m": pb["m"], "complex": pb["cplx"], "weight": pb["wkind"], "regs": [g["kind"] for g in pb["regs"]],
-                          "epsRs": pb["epsRs"], "epsI": pb["epsI"], "epsNRs": pb["epsNRs"], "dataregs": None if pb["ds"] is None else "given",
+                          "epsRs": pb["epsRs"], "epsI": pb["epsI"], "epsNRs": pb["epsNRs"], "dataregs": None if pb["ds"] is None else "given", "dtype_mix": pb["mix"]["name"],
                           "A": [[str(t) for t in row] for row in pb["A"]], "call": tag, "x": [str(t) for t in x]})
     return R.finish()
